@@ -57,7 +57,7 @@ using IdMap = std::map<std::string, std::pair<int, std::vector<std::string>>>; /
 using ImportLibrary = std::map<std::string, ModelPtr>; /** Type definition for library map of imported models. */
 using IdList = std::unordered_set<std::string>; /**< Type definition for list of identifiers. */
 
-using ResetOrderMap = std::map<VariablePtr, std::vector<int>>; /** Type definition for map of variable to reset order. **/
+using ResetOrderMap = std::vector<std::pair<VariablePtr, std::vector<int>>>; /** Type definition for list of variables and their reset orders, in order of first appearance. **/
 
 using AnalyserEquationAstWeakPtr = std::weak_ptr<AnalyserEquationAst>; /**< Type definition for weak analyser equation AST pointer. */
 using AnalyserEquationWeakPtr = std::weak_ptr<AnalyserEquation>; /**< Type definition for weak analyser equation pointer. */
